@@ -252,7 +252,7 @@ lib.comprehension = _comprehension
 # `unsat` answer changes the verdict (to discharged); `unknown` stays `unknown`, so nothing is assumed.
 import time as _time                  # noqa: E402
 
-_RETRY_PREFIX = 'C03:IdManager.prepare:'
+_RETRY_PREFIX = 'C03:IdManager.prepare'      # also the [collection] variant of the same body
 _RETRY = [(30000, 11, True), (30000, 3, False), (45000, 23, True), (45000, 5, False)]
 
 
